@@ -86,12 +86,12 @@ func verifMsgpMakeIndex(p *msgpmon.Package) *verifMsgpIndex {
 func (ix *verifMsgpIndex) lookup(st reflect.Type, f *reflect.StructField, t reflect.Type, inherited []int64) (bounds []int64, maxTotal int64, src string) {
 	if t.PkgPath() == ix.pkgPath && t.Name() != "" {
 		if b := ix.named[t.Name()]; b != nil {
-			return b.Bounds, 0, "directive " + t.Name()
+			return b.Bounds, 0, t.Name()
 		}
 	}
 	if f != nil && st != nil && st.PkgPath() == ix.pkgPath {
 		if b := ix.field[st.Name()+"."+f.Name]; b != nil {
-			return b.Bounds, b.MaxTotal, "tag " + st.Name() + "." + f.Name
+			return b.Bounds, b.MaxTotal, st.Name() + "." + f.Name
 		}
 	}
 	if len(inherited) > 0 {
